@@ -16,6 +16,15 @@ for path in sys.argv[1:]:
             print(f"NOT KEPT {name}: {r}")
             continue
         dst = os.path.join('/verif/seeded', name)
+        prev = None
+        if os.path.exists(os.path.join(dst, 'meta.json')):
+            try:
+                prev = json.load(open(os.path.join(dst, 'meta.json'))).get('validation')
+                first = json.load(open(os.path.join(dst, 'meta.json'))).get('first_validation')
+            except Exception:
+                prev = first = None
+        else:
+            first = None
         os.makedirs(dst, exist_ok=True)
         for f in os.listdir(seed):
             if os.path.isfile(os.path.join(seed, f)) and os.path.getsize(os.path.join(seed, f)) < 200000:
@@ -28,5 +37,7 @@ for path in sys.argv[1:]:
             'detected_by_quick_check': r['check_exit'] == 1,
             'check_violation': r.get('check_violation', ''),
         }
+        if first or prev:
+            meta['first_validation'] = first or prev
         json.dump(meta, open(os.path.join(dst, 'meta.json'), 'w'), indent=1)
         print(f"kept {name}: detected={r['check_exit'] == 1}")
